@@ -592,9 +592,12 @@ def explain(ctx, case, h, clauses):
 def compare_predictions(ctx, case, h, exp, exp_found=None, drift=None, variant=None, rejected=""):
     """exp = the TLC case record of the repaired I-layer, exp_found = of the I-layer with the three switches off (code as found).
     The lists may follow either; anything else is model drift -- never a violation."""
-    if rejected:
-        return  # drift is a statement about executions that satisfy P
-    drift = drift or ctx.drift
+    report = drift or ctx.drift
+
+    def drift(msg):  # drift is a statement about executions that satisfy P: for a rejected history only the switches are read off
+        if not rejected:
+            report(msg)
+
     exp_found = exp_found or exp
     variant = variant if variant is not None else {}
     o = case["o"]
@@ -619,13 +622,12 @@ def compare_predictions(ctx, case, h, exp, exp_found=None, drift=None, variant=N
     los = [r for r in raws if r["m"] == "lo"]
     if los and los[0]["rc"] == 0:
         wants = [set().union(*[conc[k] for k in e["lo"]]) if e["lo"] else set() for e in (exp, exp_found)]
-        if set(los[0]["listed"]) != created:
-            pass  # P's business (list.outputs_eq), not drift
-        elif set(los[0]["listed"]) not in wants:
+        listed = set(los[0]["listed"])
+        if wants[0] != wants[1] and listed in wants:
+            variant.setdefault("FwdOmitToList", set()).add(listed == wants[0])
+        elif listed == created and listed not in wants:  # (listed != created is P's business, list.outputs_eq)
             drift("I-layer: --list-outputs for %s: predicted %s (as found: %s), observed differs by %s"
-                  % (tag, sorted(exp["lo"]), sorted(exp_found["lo"]), sorted(set(los[0]["listed"]) ^ wants[0])[:4]))
-        elif wants[0] != wants[1]:
-            variant.setdefault("FwdOmitToList", set()).add(set(los[0]["listed"]) == wants[0])
+                  % (tag, sorted(exp["lo"]), sorted(exp_found["lo"]), sorted(listed ^ wants[0])[:4]))
     lis = [r for r in raws if r["m"] == "li"]
     if lis and lis[0]["rc"] == 0:
         got = set(lis[0]["listed"])
